@@ -108,7 +108,16 @@ def one_model(ctx, prog, script, rng):
         # spans whose labels include falsy ones (0, '') at the start, in the middle or at the end: an explicit
         # start/end naming such a period is still an explicit request
         span = rng.choice([range(100, 100 + n), range(0, n), range(-(n // 2), n - n // 2), range(-n + 1, 1),
-                           [''] + [f'p{i}' for i in range(1, n)], [f'p{i}' for i in range(n - 1)] + [0.0]])
+                           [''] + [f'p{i}' for i in range(1, n)], [f'p{i}' for i in range(n - 1)] + [0.0],
+                           list(range(2000, 2000 + n)), tuple(range(2000, 2000 + n))])
+        # sometimes the model reaches its span through a reindex() from a window of the same length rolled by one or two periods
+        # (after every label of the old window has been looked up): labels then stand at other positions than before
+        rolled = None
+        if isinstance(span, (list, tuple)) and rng.random() < 0.5:
+            k_roll = rng.choice([1, 2])
+            rolled = type(span)(list(span)[k_roll:] + [f'later{i}' for i in range(k_roll)]) if k_roll < n else None
+            if rolled is not None:
+                ctx.count('models_reindexed_from_a_rolled_window')
         ctx.seen('span_shapes', 'falsy-label' if any(not x for x in span) else 'plain')
 
         # sometimes an endogenous variable is initialised from another variable's series by a whole-series assignment
@@ -128,7 +137,14 @@ def one_model(ctx, prog, script, rng):
             ctx.count('models_checking_a_non_endogenous_variable')
 
         def fresh():
-            m = Rec(span)
+            if rolled is not None:
+                m0 = Rec(rolled)
+                for lab in rolled:
+                    m0[names[0], lab]
+                    m0[names[0], lab:lab]
+                m = m0.reindex(span)
+            else:
+                m = Rec(span)
             for nm in names:
                 m.__dict__['_' + nm][:] = data[nm]
             if extra_check:
